@@ -678,6 +678,16 @@ def seeded_programs():
     g = Sub(1, "sink", [], N, None)
     g.body = ("seq", [("op", "PopU", [("call", f, [("int", 3)])]), ("if", ("int", 1), ("ret", None), None), ("op", "PopU", [("int", 9)])])
     out.append(("subs", Program("app", ("seq", [("call", g, []), ("ret", ("call", f, [("int", 1)]))]), [], [f, g]), 6))
+    # a loop whose If continues on one side and breaks on the other, the loop exit running straight into the routine's end
+    for nm, els in (("loop-continue-else-break", ("seq", [("op", "PopU", [("load", j)]), ("break",)])),
+                    ("loop-continue-else-maybe-break", ("seq", [("op", "PopU", [("load", j)]), ("if", ("op", "Gt", [("load", j), ("int", 2)]), ("break",), None)]))):
+        body = ("seq", [("store", j, ("op", "Add2", [("load", j), ("int", 1)])), ("if", ("op", "EqU", [("load", j), ("int", 2)]), ("continue",), els)])
+        out.append((nm, Program("app", ("seq", [("store", j, ("int", 0)), ("while", ("op", "Lt", [("load", j), ("int", 5)]), body),
+                                                ("ret", ("load", j))]), [j], []), 6))
+        out.append((nm + "-for", Program("app", ("seq", [("for", ("store", j, ("int", 0)), ("op", "Lt", [("load", j), ("int", 5)]),
+                                                          ("store", j, ("op", "Add2", [("load", j), ("int", 1)])),
+                                                          ("if", ("op", "EqU", [("load", j), ("int", 2)]), ("continue",), els)),
+                                                         ("ret", ("load", j))]), [j], []), 6))
     k = Var(U)
     out.append(("store-load", Program("app", ("seq", [("store", k, ("txn", "Fee")), ("if", ("load", k), ("approve",), None), ("reject",)]), [k], []), 8))
     return out
